@@ -76,6 +76,8 @@ def lagrange(frame1, frame2, number, name=None, orientation=None):
     """
 
     c_name = f"{frame1.center.body.name}{frame2.center.body.name}L{number}"
+    # body names may have several words ('Earth Barycenter'): CamelCase, as the other centres
+    c_name = c_name.replace(" ", "")
 
     if name is None:  # pragma: no cover
         name = c_name
